@@ -281,6 +281,8 @@ class Analysis(object):
         self.changed = False
         self.unmodelled = []
         self._gcache = {}
+        self.order_ops = []
+        self._order_seen = set()
         self._home_node = {}
         self.deep_sites = set()
         self.scalar_use = set()
@@ -985,6 +987,10 @@ class Analysis(object):
                 if ka is not None:
                     out.add(ka)
                     continue
+                if t[1] == "GRAPH" and attr == "_graph":
+                    # the networkx graph held by WorkflowGraph is persisted state too
+                    out.add(("P", ("WC", "_graph", "nx")))
+                    continue
                 ci = self._kind_class(t[1])
                 m = self.prog.lookup_method(ci, attr) if ci else None
                 if m is not None:
@@ -1133,17 +1139,25 @@ class Analysis(object):
             left = v
         return SAV
 
+    def _mark_path(self, path):
+        if len(path) <= 1 or path in self.scalar_use:
+            return
+        if len(path) > 2 and path[-1] == "*" and path[-2] == "*":
+            # value of a flattened mapping (e.g. node attributes): heterogeneous, evidence
+            # about one member says nothing about the others
+            return
+        self.scalar_use.add(path)
+        self.changed = True
+
     def mark_scalar(self, av):
         for t in av:
-            if t[0] == "P" and t[1] not in self.scalar_use and len(t[1]) > 1:
-                self.scalar_use.add(t[1])
-                self.changed = True
+            if t[0] == "P":
+                self._mark_path(t[1])
             elif t[0] == "F" and t[1][3] in ("list", "tuple"):
                 # operands of '%': elements of the display
                 for x in self.hall(t[1]):
-                    if x[0] == "P" and x[1] not in self.scalar_use:
-                        self.scalar_use.add(x[1])
-                        self.changed = True
+                    if x[0] == "P":
+                        self._mark_path(x[1])
 
     def _is_const_strs(self, fr, node):
         try:
@@ -1434,6 +1448,9 @@ class Analysis(object):
             return self.fresh(fr, e, "setop", {"*": self.elems(recv) | self.elems(a0)})
         if name in ("split", "splitlines"):
             return self.fresh(fr, e, "split", {"*": SAV})
+        if t[0] == "P" and name not in READERS:
+            # method of a foreign container held in the state (networkx views): some part of it
+            return frozenset([self.pread(t[1] + ("*",)), S])
         return SAV
 
     def _argkey(self, fr, e, i):
@@ -1454,6 +1471,13 @@ class Analysis(object):
         if name in CONTAINER_FUNCS:
             if not args:
                 return self.fresh(fr, e, name, {})
+            if name in ("sorted", "set", "frozenset", "reversed"):
+                paths = tuple(sorted(t[1] for t in a0 if t[0] == "P"))
+                if paths:
+                    k = (fr.func.qualname, id(e))
+                    if k not in self._order_seen:
+                        self._order_seen.add(k)
+                        self.order_ops.append((fr.func, e, name, paths))
             if name in ("list", "tuple") and len(a0) == 1:
                 (t,) = a0
                 flds = self.heap.get(t[1], {}) if t[0] == "F" else {}
